@@ -106,7 +106,10 @@ class Operator(abc.ABC):
     def copy(self, name=None, duration=None):
         """return copy of self"""
         name = name or self.name
-        duration = duration or self.duration
+        if duration is None:
+            duration = self.duration
+        elif np.any(np.asarray(duration) < 0):
+            raise ValueError("Cannot have duration < 0")
         new = self.__new__(type(self))
         new.name = name
         new.duration = duration
